@@ -38,6 +38,7 @@ OBLIGATIONS_ANNEAL = [
     "C19_total", "C19_period_positive", "C19_short_refused", "C19_defaults_short_refused", "C19_accepted_iff", "C19_accepted_cases",
     "C19_accepted_proper", "C19_frozen", "C19_one_after_annealing_refuted", "C19_ge_one_refuted",
     "C19_tie_n_ann", "C19_tie_ctor", "C19_tie_init", "C19_tie_update", "C19_tie_defaults",
+    "C19_run_length_irrelevant",
 ]
 OBLIGATIONS_STD = [
     "C19_std_positive", "C19_std_envelope", "C19_std_changes_only_at_multiples_of_L", "C19_std_factor", "C19_std_factor_iff",
